@@ -272,7 +272,31 @@ def check_names_and_numbers(ctx):
     ri = repo.method("Item", "_read_items", inherited=False)
     cfg = cfg_of(ri.node)
     raises = [n for n in cfg.real_nodes() if isinstance(n.ast, ast.Raise)]
-    ok = any(re.match(r"^int\(length\.value\) == (count|len\(items\))$", t) and not pol for r in raises for t, pol in cnd.facts(cfg, r, fn=ri.node) | cnd.facts(cfg, r))
+    # the refusal stands under `int(<declared length token>.value) != <number of members read>`, whatever the locals are called
+    declared = {t.id for st in rules.func_stmts(ri.node) if isinstance(st, ast.Assign) and isinstance(st.value, ast.Call) and (call_name(st.value) or "").endswith("._read_length")
+                for t in st.targets if isinstance(t, ast.Name)}
+    lists = {norm(c.func.value) for c in calls_in(ri.node) if isinstance(c.func, ast.Attribute) and c.func.attr == "append" and any(isinstance(w, ast.While) and any(x is c for x in ast.walk(w)) for w in ast.walk(ri.node))}
+    counters = {norm(st.target) for w in ast.walk(ri.node) if isinstance(w, ast.While) for st in ast.walk(w) if isinstance(st, ast.AugAssign) and isinstance(st.op, ast.Add) and rules.literal(ri.node, st.value) == (True, 1)}
+
+    def _is_declared(text):
+        m = re.match(r"^int\((\w+)\.value\)$", text)
+        return bool(m) and m.group(1) in declared
+
+    def _is_count(text):
+        m = re.match(r"^len\((.+)\)$", text)
+        return (bool(m) and m.group(1) in lists) or text in counters
+
+    ok = False
+    for r in raises:
+        for t, pol in cnd.facts(cfg, r, fn=ri.node) | cnd.facts(cfg, r):
+            try:
+                e = ast.parse(t, mode="eval").body
+            except SyntaxError:
+                continue
+            if isinstance(e, ast.Compare) and len(e.ops) == 1 and ((isinstance(e.ops[0], ast.Eq) and not pol) or (isinstance(e.ops[0], ast.NotEq) and pol)):
+                a, b = rules.expand(ri.node, e.left), rules.expand(ri.node, e.comparators[0])
+                if (_is_declared(a) and _is_count(b)) or (_is_declared(b) and _is_count(a)):
+                    ok = True
     ctx.ob("C15.P1", ri.qualname, ok, "a declared list length that differs from the number of members is refused" if ok else "a wrong declared list length is not refused", key="length-check", where=ri.where)
     lw = repo.method("ItemL", "to_sml", inherited=False)
     ok = "[{len(self._value)}]" in norm(lw.node) or "[{len(self)}]" in norm(lw.node)
